@@ -62,44 +62,78 @@ pub fn take_server() -> Option<(Rocket<Ignite>, Vec<String>)> {
     Some((server, bases))
 }
 
-/// Body of the net task.
-pub fn serve(server: Rocket<Ignite>, bases: Vec<String>, wire: shuttle::sync::mpsc::Receiver<Request>) {
-    let client = match block_on(Client::untracked(server)) {
-        Ok(c) => c,
-        Err(e) => panic!("harness: rocket local client: {:?}", e),
-    };
-    while let Ok(rq) = wire.recv() {
-        let copy: u8 = if rq.reply.is_some() { 0 } else { 1 };
-        let path = bases.iter().find_map(|b| rq.url.strip_prefix(b.as_str()).filter(|p| p.is_empty() || p.starts_with('/'))).map(|p| p.to_string());
-        let answer = match path {
-            None => {
-                // nobody listens there
-                rec::bump("http_unreachable");
-                rec::push(RecKind::HttpDispatch { req: rq.req, copy, path: "<unreachable>".into() });
-                None
-            }
-            Some(path) => {
-                rec::push(RecKind::HttpDispatch { req: rq.req, copy, path: path.clone() });
-                let body = rq.body.clone();
-                let (status, text) = block_on(async {
-                    let resp = client.post(path).header(ContentType::Form).body(body).dispatch().await;
-                    let status = resp.status().code;
-                    let text = resp.into_string().await.unwrap_or_default();
-                    (status, text)
-                });
-                rec::push(RecKind::HttpHandled { req: rq.req, copy, status, body: text.clone() });
-                Some((status, text))
-            }
-        };
-        http::handled();
-        if let Some(tx) = rq.reply {
-            if rq.fate == FATE_DROP_RESPONSE {
-                rec::bump("http_fault_drop_response");
-                let _ = tx.send(None);
-            } else {
-                let _ = tx.send(answer);
-            }
+/// Drive a future that never waits for I/O to completion on the calling task, without entering the tokio
+/// runtime (several simulated tasks do this at the same time on one OS thread; `block_on` cannot nest).
+fn poll_now<F: Future>(f: F) -> F::Output {
+    let mut f = std::pin::pin!(f);
+    let waker = std::task::Waker::noop();
+    let mut cx = std::task::Context::from_waker(waker);
+    for _ in 0..10_000 {
+        if let std::task::Poll::Ready(v) = f.as_mut().poll(&mut cx) {
+            return v;
         }
     }
-    block_on(async move { drop(client) });
+    panic!("harness: in-process HTTP dispatch is waiting for something outside the simulation");
+}
+
+fn handle(client: &Client, bases: &[String], rq: Request) {
+    let copy: u8 = if rq.reply.is_some() { 0 } else { 1 };
+    let path = bases.iter().find_map(|b| rq.url.strip_prefix(b.as_str()).filter(|p| p.is_empty() || p.starts_with('/'))).map(|p| p.to_string());
+    let answer = match path {
+        None => {
+            // nobody listens there
+            rec::bump("http_unreachable");
+            rec::push(RecKind::HttpDispatch { req: rq.req, copy, path: "<unreachable>".into() });
+            None
+        }
+        Some(path) => {
+            rec::push(RecKind::HttpDispatch { req: rq.req, copy, path: path.clone() });
+            let body = rq.body.clone();
+            let (status, text) = poll_now(async {
+                let resp = client.post(path).header(ContentType::Form).body(body).dispatch().await;
+                let status = resp.status().code;
+                let text = resp.into_string().await.unwrap_or_default();
+                (status, text)
+            });
+            rec::push(RecKind::HttpHandled { req: rq.req, copy, status, body: text.clone() });
+            Some((status, text))
+        }
+    };
+    http::handled();
+    if let Some(tx) = rq.reply {
+        if rq.fate == FATE_DROP_RESPONSE {
+            rec::bump("http_fault_drop_response");
+            let _ = tx.send(None);
+        } else {
+            let _ = tx.send(answer);
+        }
+    }
+}
+
+/// Body of the net task: accepts requests from the wire and hands each one to a worker task of its own,
+/// like rocket's worker pool: handlers run concurrently with each other and with the sessions.
+pub fn serve(server: Rocket<Ignite>, bases: Vec<String>, wire: shuttle::sync::mpsc::Receiver<Request>) {
+    let rt = runtime();
+    let _ctx = rt.enter();
+    let client = match rt.block_on(Client::untracked(server)) {
+        Ok(c) => std::sync::Arc::new(c),
+        Err(e) => panic!("harness: rocket local client: {:?}", e),
+    };
+    let bases = std::sync::Arc::new(bases);
+    let mut workers = Vec::new();
+    let mut n = 0usize;
+    while let Ok(rq) = wire.recv() {
+        let c = client.clone();
+        let b = bases.clone();
+        n += 1;
+        let h = shuttle::thread::Builder::new().name(format!("http_worker_{}", n)).spawn(move || handle(&c, &b, rq)).unwrap();
+        workers.push(h);
+    }
+    for h in workers {
+        let _ = h.join();
+    }
+    match std::sync::Arc::try_unwrap(client) {
+        Ok(c) => rt.block_on(async move { drop(c) }),
+        Err(_) => panic!("harness: HTTP client still shared at the end of the run"),
+    }
 }
